@@ -55,7 +55,7 @@ def strategy_(draw, tier):
     return {'t': t, 'dc': draw(_dc_value(3))}
   recipe = draw(dags.dag(
       max_nodes=9, min_nodes=2, tags=True, bts=('Config', 'Config', 'Partial'),
-      kinds=['B', 'B', 'list', 'tuple', 'dict', 'Bmut', 'Bmut1', 'Bmut1', 'Bpo', 'Bpo3', 'Bdc', 'TV', 'Bempty', 'ltuple', 'ntuple'],
+      kinds=['B', 'B', 'list', 'tuple', 'dict', 'Bmut', 'Bmut1', 'Bmut1', 'Bmutnest', 'Bpo', 'Bpo3', 'Bdc', 'TV', 'Bempty', 'ltuple', 'ntuple'],
       fns=['things:f2', 'things:h1', 'things:Base'], root_kinds=['B', 'Bmut', 'Bmut1', 'Bpo', 'Bpo3', 'Bdc', 'list'],
       p_alias=0.8, allow_copyof=False))
   if draw(st.floats(0, 1)) < (0.6 if t.startswith('materialize_tags') else 0.15):
@@ -72,7 +72,7 @@ def strategy_(draw, tier):
       root['items'].append(i + 1)
     elif root['k'] == 'B':
       name = root['fn']['name']
-      pname = {'things:h1': 'e', 'things:mutdef': 'c', 'things:mutdef1': 'other', 'things:po2': 'a', 'things:po3': 'a', 'things:DCPlain': 'v'}.get(name, 'child')
+      pname = {'things:h1': 'e', 'things:mutdef': 'c', 'things:mutdef1': 'other', 'things:mutnest': 'other', 'things:po2': 'a', 'things:po3': 'a', 'things:DCPlain': 'v'}.get(name, 'child')
       root['kw'][pname] = i + 1
     recipe['root'] = i + 2
   case = {'t': t, 'recipe': recipe}
@@ -209,7 +209,7 @@ def _check(case, out):
     args = {} if case['ac_arg'] is None else {list(inspect.signature(fn).parameters)[0]: case['ac_arg']}
     accfg = fdl.Config(fn, **args)
     root = [accfg, root, {'again': accfg}]
-  special = any(isinstance(v, fdl.Buildable) and v.__fn_or_cls__ in (things.po2, things.po3, things.mutdef, things.mutdef1, things.DCPlain)
+  special = any(isinstance(v, fdl.Buildable) and v.__fn_or_cls__ in (things.po2, things.po3, things.mutdef, things.mutdef1, things.mutnest, things.DCPlain)
                 for _, v in C.walk(root))
   idn = C.identity_nodes(root)
   sharing = any(len(ps) > 1 for _, ps in idn.values())
@@ -307,7 +307,8 @@ def _check(case, out):
   return out
 
 
-_DEFAULT_OBJECTS = (things._MUTABLE_DEFAULT, things._SINGLE_DEFAULT)  # pylint: disable=protected-access
+_DEFAULT_OBJECTS = (things._MUTABLE_DEFAULT, things._SINGLE_DEFAULT, things._NEST_DEFAULT,  # pylint: disable=protected-access
+                    things._NEST_DEFAULT['k'])  # pylint: disable=protected-access
 
 
 def _noid(x, ps):
@@ -418,6 +419,6 @@ def _feature(root):
         fs.add('posonly-default')
       if v.__fn_or_cls__ is things.DCPlain:
         fs.add('default-factory')
-      if v.__fn_or_cls__ in (things.mutdef, things.mutdef1):
+      if v.__fn_or_cls__ in (things.mutdef, things.mutdef1, things.mutnest):
         fs.add('mutable-default')
   return ','.join(sorted(fs)) or 'plain'
